@@ -8,7 +8,7 @@ from vv.core import Result, exc_violation, innermost_is_harness
 from vv.util import deq, getp, put, tree_leaves
 
 ID = 'C06'
-CASES = {'quick': 250, 'thorough': 4000}
+CASES = {'quick': 600, 'thorough': 40000}
 RULE = ('Hierarchy-first: Hypothesis draws a target tree (depth <=4, distinct '
         'integer leaves, optional collection nodes whose children are alike), '
         'then 1..3 processes placed at depth 0..3, each with 1..3 ports drawn '
